@@ -267,6 +267,9 @@ impl Prop for C11Prop {
         }
         None
     }
+    fn sut_crash_is_violation(&self) -> bool {
+        false
+    }
     fn case_timeout(&self) -> (u64, bool) {
         (90, false)
     }
